@@ -951,7 +951,7 @@ func parseContractFile(pkg string, path string, f *ast.File, fset *token.FileSet
 				split := -1
 				for i, f := range fs {
 					switch f {
-					case "guarded_by", "immutable_after", "atomic", "owned_by_caller", "sync", "owned_by", "config":
+					case "guarded_by", "immutable_after", "atomic", "owned_by_caller", "sync", "owned_by", "config", "syncmap":
 						if split < 0 {
 							split = i
 						}
